@@ -124,6 +124,32 @@ def materialise(plan, opt, rng, work, fmt="json"):
                 pass
         elif kind == "nonstrkey":
             data = objs[0]
+        if fmt == "ini" and kind in ("object", "lookup", "malformed", "badlookup", "missing", "scalar"):
+            # configparser gives {section: {key: str}}: the whole file is one object, or a section is selected by lookup
+            def ini_obj(sid):
+                return {"main": {"sid": str(sid), "name": rng.choice(["a", "b", "1"])}, "extra": {"x": "1", "flag": rng.choice(["true", "no"])}}
+            if kind == "object":
+                objs = [ini_obj(a["ids"][0])]
+                text, lookup = _ini_text(objs[0]), "-"
+            elif kind == "lookup":
+                sec = {"sid": str(a["ids"][0]), "name": "n", "when": "2020-01-02"}
+                objs = [sec]
+                text, lookup = _ini_text({"res": sec, "other": {"y": "2"}}), "res"
+            elif kind == "malformed":
+                text = "[unclosed\nkey value without equals\n"
+            elif kind == "badlookup":
+                text, lookup = _ini_text({"res": {"sid": "0"}}), "nothere"
+            elif kind == "scalar":
+                text, lookup = _ini_text({"res": {"v": "5"}}), "res.v"
+            contents[i] = (kind, objs)
+            if kind != "missing":
+                with open(path, "w") as f:
+                    f.write(text)
+            if a["flag"] == "m":
+                argv += ["-m", a["model"]] + ([lookup] if lookup != "-" else []) + [path]
+            else:
+                argv += ["-l", a["model"], lookup, path]
+            continue
         contents[i] = (kind, objs)
         if a.get("share"):
             # same physical file as argument 1, another sub-document
@@ -178,6 +204,15 @@ def materialise(plan, opt, rng, work, fmt="json"):
     if fmt != "json":
         opt_argv += ["-i", fmt]
     return argv + opt_argv, path_index, per_model, out_path
+
+
+def _sid(s):
+    v = s.get("sid") if "sid" in s else (s.get("main") or {}).get("sid")
+    return int(v) if isinstance(v, str) and v.isdigit() else v
+
+
+def _ini_text(d):
+    return "".join("[%s]\n%s\n" % (sec, "".join("%s = %s\n" % kv for kv in items.items())) for sec, items in d.items())
 
 
 def _set_merge(argv, val):
@@ -276,7 +311,7 @@ def run_subprocess(plan, opt, rng, fmt):
             # the order inside a pattern is unspecified and not observable from outside: every order of every pattern chunk
             import itertools
             order = [a for a in plan["args"] if a["flag"] == "m"] + [a for a in plan["args"] if a["flag"] == "l"]
-            by_id = {s_["sid"]: s_ for ss in per_model.values() for s_ in ss if isinstance(s_, dict)}
+            by_id = {_sid(s_): s_ for ss in per_model.values() for s_ in ss if isinstance(s_, dict)}
             globs = [a for a in order if a["kind"] == "glob"]
             for flips in itertools.product([False, True], repeat=len(globs)):
                 pm = {}
@@ -303,6 +338,8 @@ def run_plan(plan, opt, rng, fmt="json", sub=False):
     old_argv, old_path, old_cwd = sys.argv, list(sys.path), os.getcwd()
     if any(a["kind"] == "nonstrkey" for a in plan["args"]):
         fmt = "yaml"        # only a YAML document can carry non-string keys
+    if fmt == "ini" and not all(a["kind"] in ("object", "lookup", "malformed", "badlookup", "missing", "scalar") and not a.get("share") for a in plan["args"]):
+        fmt = "json"        # an ini file holds exactly one object of string values
     try:
         argv, path_index, per_model, out_path = materialise(plan, opt, rng, work, fmt)
         with open(os.path.join(work, "j2m_raising_gen.py"), "w") as f:
@@ -332,7 +369,7 @@ def run_plan(plan, opt, rng, fmt="json", sub=False):
         if status == 0:
             try:
                 # the same samples in the order the CLI assembled them (the order inside a pattern is unspecified)
-                by_id = {s_["sid"]: s_ for ss in per_model.values() for s_ in ss if isinstance(s_, dict)}
+                by_id = {_sid(s_): s_ for ss in per_model.values() for s_ in ss if isinstance(s_, dict)}
                 observed = {}
                 for e in rec.events:
                     if e["ev"] == "Generate" and e.get("ok") and e.get("model"):
